@@ -1113,6 +1113,51 @@ def pred_c16(line, st):
         if (r[0] == "1") != ok:
             return "DSS verifier says %s, the standard DSA equation and range conditions say %s (r=%d s=%d)" % (r[0], int(ok), rr, ss)
         return None
+    if op == "dkg.sign":
+        # remember the hash answers of this run for the summary line that follows
+        log = {}
+        for tok_ in a:
+            if tok_.startswith("[") and ":" in tok_ and not tok_.startswith("[["):
+                try:
+                    for e in plist(tok_):
+                        k, v = e.split(":")
+                        log[bytes.fromhex(k).decode()] = int(v)
+                except Exception:
+                    pass
+        st["sign_oracle"] = log
+        return None
+    if op == "prop.dkg.sign":
+        kv = _kv(a)
+        nums = [x for x in a if x.isdigit()]
+        p, q, g, h = (int(x) for x in nums[:4])
+        m = int(kv["m"])
+        honest = ilist(kv["honest"])
+        P = _parties(r)
+        where = "seed=%s case=%s n=%s t=%s %s" % (kv.get("seed"), kv.get("case"), kv.get("n"), kv.get("t"), tag_of(a))
+        done = {i: P[i] for i in honest if P.get(i) and len(P[i]) >= 7 and P[i][1] == "1"}
+        st["sign_runs"] = st.get("sign_runs", 0) + 1
+        st["sign_completed"] = st.get("sign_completed", 0) + (1 if done else 0)
+        if not done:
+            return None
+        sigs = {(x[2], x[3]) for x in done.values()}
+        if len(sigs) != 1:
+            return "honest parties obtained different signatures: %s (%s)" % (sorted(sigs), where)
+        ys = {x[6] for x in done.values()}
+        if len(ys) != 1:
+            return "honest signers hold different public keys (%s)" % where
+        c, sg, y = int(next(iter(sigs))[0]), int(next(iter(sigs))[1]), int(next(iter(ys)))
+        log = st.get("sign_oracle", {})
+        hx = lambda z: ("-" if z < 0 else "") + "%x" % abs(z)
+        ok = False
+        if 0 <= sg < q and y % p != 0:
+            R = pow(g, sg, p) * pow(y, -c, p) % p
+            key = hx(m) + "|" + hx(R) + "|"
+            ok = key in log and log[key] == c
+        if not ok:
+            return "threshold signature (c,s) of a completed run does not satisfy c = H(m, g^s y^-c), 0 <= s < q (%s)" % where
+        if any(x[4] != "1" for x in done.values()):
+            return "the library's verifier refuses the signature the run produced (%s)" % where
+        return None
     if op == "tsig.nts.verify":
         t = tag_of(a)
         a = [x for x in a if not x.startswith("tag:")]
